@@ -50,7 +50,7 @@ groups = {
  'C07': ['execLiterals', 'noticeDumpCalls', 'prepareForReplicationSrc', 'startDumpSrc', 'newSlaveConnectionSrc', 'streamBody',
          'SetBinlogPositionSrc', 'binlogPositionSrc'],
  'C08': ['conn_readBinlogEventSrc', 'printTimestampSrc', 'zeroTimestampInit', 'closure_begin', 'closure_commit', 'cellBytesCases']
-        + bodies(7, 17, 15, 16, 248, 252, 254, 255) + ROWCONV,
+        + [k for k in defs if k.startswith('cellBytesBody')] + ROWCONV,   # Mem model: which bodies hand out sub-slices / constants
  'C09': ['fnRowsSrc', 'cellLengthFixed', 'cellLengthOther', 'cellBytesCases', 'newBitmapSrc', 'bitmapBitSrc', 'bitmapBitCountSrc',
          'bitmapCountSrc', 'readLenEncIntSrc', 'dig2bytes', 'formatHeaderSizeSrc'] + [k for k in defs if k.startswith('cellBytesBody')]
         + ['getValuesFromRowSrc', 'getIdentifiesFromRowSrc'] + TYPES,
